@@ -41,7 +41,7 @@ MAPC = {
     "models/participant.go": "C02 C14", "models/signed_latency.go": "C18",
     "websocket/realtime.go": "C08 C04 C07 C09 C02 C18", "websocket/handler.go": "C08 C04 C02 C06 C11",
     "modules/vikja/vikja.go": "C16 C08", "modules/vikja/state.go": "C16 C09", "modules/odal/odal.go": "C16 C08", "modules/odal/state.go": "C16 C09",
-    "modules/dagaz/dagaz.go": "C20 C08 C04 C09", "modules/dagaz/math.go": "C20 C08", "modules/dagaz/grid_spatial_partition.go": "C20 C08",
+    "modules/dagaz/dagaz.go": "C20 C08", "modules/dagaz/math.go": "C20", "modules/dagaz/grid_spatial_partition.go": "C20",
     "modules/dagaz/state.go": "C20 C09", "http/auth.go": "C15", "http/http.go": "C15 C08", "http/handler.go": "C15",
     "receipt/handler.go": "C19", "featureflag/featureflag.go": "C17", "featureflag/flags.go": "C17",
     "cmd/main.go": "C15 C17 C19 C08 C16 C18 C20",
